@@ -75,6 +75,7 @@ type Rule struct {
 	ErrLine int    `json:"errline"`
 	Nodes   []Node `json:"nodes"`
 	NG      bool   `json:"ng"` // first rule of its group
+	GN      string `json:"gn"` // the group it belongs to: name|interval|limit|query_offset
 }
 
 type Group struct {
@@ -224,6 +225,7 @@ func Parse(lines []string, strict bool) (f File) {
 		for ri, r := range g.Rules {
 			pr := ProjectRule(r, lines)
 			pr.NG = ri == 0
+			pr.GN = fmt.Sprintf("%s|%s|%d|%s", g.Name, g.Interval, g.Limit, g.QueryOffset)
 			pg.Rules = append(pg.Rules, pr)
 		}
 		f.Groups = append(f.Groups, pg)
